@@ -423,6 +423,10 @@ def oracle_mesh(kind, m, manifold=True):
     p2t = m.p2t
     if p2f.shape != (nf, nv) or {(int(i), int(j)) for i, j in zip(*p2f.nonzero())} != {(f, int(v)) for f in range(nf) for v in fac[:, f]}:
         bad.append(('p2f', 'nonzero pattern differs from facet membership'))
+    for nmx, Ax in (('p2f', p2f), ('p2t', p2t)):
+        vals = sorted(set(Ax.tocsc().data.tolist()) - {0})
+        if vals not in ([1], []):
+            bad.append((nmx, f'incidence matrix has entries {vals}; an incidence matrix is 0/1'))
     if p2t.shape != (nt, nv) or {(int(i), int(j)) for i, j in zip(*p2t.nonzero())} != {(e, int(v)) for e in range(nt) for v in t[:, e]}:
         bad.append(('p2t', 'nonzero pattern differs from cell membership'))
     if not three_d:
@@ -448,6 +452,10 @@ def oracle_mesh(kind, m, manifold=True):
     p2e = m.p2e
     if p2e.shape != (ne, nv) or {(int(i), int(j)) for i, j in zip(*p2e.nonzero())} != {(g, int(v)) for g in range(ne) for v in edg[:, g]}:
         bad.append(('p2e', 'nonzero pattern differs from edge membership'))
+    for nmx, Ax in (('p2e', p2e), ('e2t', m.e2t)):
+        vals = sorted(set(Ax.tocsc().data.tolist()) - {0})
+        if vals not in ([1], []):
+            bad.append((nmx, f'incidence matrix has entries {vals}; an incidence matrix is 0/1'))
     e2t = m.e2t
     nz = {(int(i), int(j)) for i, j in zip(*e2t.nonzero())}
     t2e = np.asarray(m.t2e)
@@ -551,6 +559,19 @@ def _oracle(ctx, rng):
         for table, msg in oracle_mesh('wedge', m, True):
             ctx.fail(f'wedge:{table}', f'MeshWedge1 (two stacked wedges, t = {m.t.T.tolist()}): {msg}',
                      {'kind': 'wedge', 'p': pw.tolist(), 't': m.t.tolist(), 'table': table})
+    # higher-order meshes: the boundary / interior NODE sets are about the vertices (numbers < nvertices), not the extra points
+    for cls, nref in ((skfem.MeshTri2, 1), (skfem.MeshQuad2, 1), (skfem.MeshTet2, 1), (skfem.MeshHex2, 1), (skfem.MeshTri2, 0)):
+        m2 = cls().refined(nref) if nref else cls()
+        nv2 = int(np.max(m2.t)) + 1
+        fac2 = np.asarray(m2.facets)
+        want_b = sorted({int(v) for f in range(fac2.shape[1]) if m2.f2t[1, f] == -1 for v in fac2[:, f]})
+        got_b, got_i = m2.boundary_nodes().tolist(), m2.interior_nodes().tolist()
+        ctx.count(('second-order', cls.__name__, nref), nontrivial=True)
+        if got_b != want_b or got_i != sorted(set(range(nv2)) - set(want_b)):
+            ctx.fail(f'{cls.__name__}:boundary-interior-nodes', f'{cls.__name__}().refined({nref}): boundary_nodes / interior_nodes = '
+                     f'{got_b[:8]}... / {got_i[:8]}... are not the vertices of single-neighbour facets and their complement among the '
+                     f'{nv2} vertices (the mesh has {m2.p.shape[1]} points)',
+                     {'kind': cls.__name__, 'refined': nref, 'table': 'second-order-nodes'})
     for kind in KINDS:
         ctx.count(('refdom', kind), nontrivial=False)
         for table, msg in oracle_refdom(kind):
@@ -657,6 +678,8 @@ def _equivariance(ctx, rng, kind, m):
 def replay(ctx, data):
     """re-run the oracle on the recorded mesh"""
     inp = data['input']
+    if inp.get('table') == 'second-order-nodes':
+        return run(ctx)
     if 'p' not in inp:          # a reference-cell table
         for msg in oracle_on_facet(inp['kind']):
             ctx.fail(f"{inp['kind']}:on_facet", msg, inp)
